@@ -146,6 +146,9 @@ def cfg_attr(e):
         bt = tail(base)
         if bt in ("cfg", "conf"):
             return e.attr
+        # a local alias of the configuration object (`cfg = self.cfg`), whatever it is called
+        if isinstance(base, ast.Name) and (base.id.startswith("cfg") or base.id.startswith("conf")):
+            return e.attr
     return None
 
 
